@@ -45,13 +45,13 @@ def main():
                        nproc=common.nproc(), budget_s=300 if t == "quick" else 1500)
     chk.add("unit-prestate", r)
     from . import fam_nbdiff, fam_nbmerge, fam_merge
-    r = runner.explore("harness.fam_nbdiff", fam_nbdiff.shards(t, (PROP,), kn, files=0, lite=True),
+    r = runner.explore("harness.fam_nbdiff", fam_nbdiff.shards("quick", (PROP,), kn, files=0, lite=(t == "quick")),
                        nproc=common.nproc(), budget_s=400 if t == "quick" else 3000)
     chk.add("notebook-diffs", r)
-    base = fam_nbmerge.default_shards(t, (PROP,), kn, tools=("git",))
+    base = fam_nbmerge.default_shards("quick", (PROP,), kn, tools=("git",))
     sh = base + fam_nbmerge.with_strat([s for s in base if s[1].startswith("act-")],
                                        ("mergetool", None, None, True), "-mergetool")
-    st = fam_nbmerge.strategy_shards(t, (PROP,), kn, tools=("git",))
+    st = fam_nbmerge.strategy_shards("quick", (PROP,), kn, tools=("git",))
     sh += st if t == "thorough" else st[1::2]
     r = runner.explore("harness.fam_nbmerge", sh, nproc=common.nproc(),
                        budget_s=400 if t == "quick" else 3000)
